@@ -253,6 +253,28 @@ def r4(ctx, retsets):
         ctx.check(bool(outs) and all(c == exp for c in found), "C06.R4", "pfx_table_copy_cb[socket%sown]" % ("=" if same else "!="),
                   "%s:%d" % (cb.relfile, cb.line), "effects %s, expected %s" % (found, exp),
                   key="C06.R4:pfx_copy_cb:%s" % same)
+    # the error flag of the walk is a latch: a failed add raises it, nothing lowers it, a successful add leaves it alone
+    ERRC = ("fld", ("arg", 1), "copy_cb_args.error")
+    succ = pdb.enum_value("PFX_SUCCESS")
+    fails = sorted(set((retsets.get((pdb.fn("pfx_table_add").unit, "pfx_table_add")) or ())) - {succ}) if retsets.get((pdb.fn("pfx_table_add").unit, "pfx_table_add")) != "TOP" else [pdb.enum_value("PFX_ERROR")]
+    for prior in (0, 1):
+        for res in [succ] + fails:
+            def oracle(inst, pred, a, b, E):
+                if {a, b} == {sock_a, sock_r} and pred in ("eq", "ne"):
+                    return pred == "ne"
+                return None
+
+            def classify(inst, E, st, res=res):
+                if inst.op == "call" and inst.callee == "pfx_table_add":
+                    return [([], {inst.ref: flow.av_in(res)})]
+                return None
+            outs, fl = es.count_effects(cb, pdb, classify, None, oracle=oracle, init=None, pinned=lambda pe: pe == ERRC,
+                                        cell={ERRC: prior})
+            after = sorted({str(flow.av_single(o["facts"].get(("M", ERRC)))) for o in outs})
+            want = "1" if (prior == 1 or res != succ) else "0"
+            ctx.check(bool(outs) and after == [want], "C06.R4", "pfx_table_copy_cb:error-latch[error before=%d,add returns %d]" % (prior, res),
+                      "%s:%d" % (cb.relfile, cb.line), "args.error afterwards: %s (expected %s)" % (after, want),
+                      key="C06.R4:pfx_copy_cb:latch:%d:%d" % (prior, res))
     fn = pdb.fn("pfx_table_copy_except_socket")
     ctx.touch(fn)
     walks = fn.calls(("pfx_table_for_each_ipv4_record", "pfx_table_for_each_ipv6_record"))
@@ -428,4 +450,6 @@ WITNESSES = [
     {"id": "C06.w11-cache-response-forgets-resetting", "rule": "C06.R6", "file": PK,
      "old": "\t\t\trtr_socket->is_resetting = true;\n\t\t}\n\t\trtr_socket->session_id = cr_pdu->session_id;",
      "new": "\t\t}\n\t\trtr_socket->session_id = cr_pdu->session_id;"},
+    {"id": "C06.w12-copy-error-flag-overwritten", "rule": "C06.R4", "file": TP,
+     "old": "\t\tif (pfx_table_add(args->pfx_table, record) != PFX_SUCCESS)\n\t\t\targs->error = true;", "new": "\t\targs->error = pfx_table_add(args->pfx_table, record) != PFX_SUCCESS;"},
 ]
